@@ -12,6 +12,43 @@ import (
 type MemStore struct {
 	mu sync.Mutex
 	m  map[string][]byte
+	// order, per entity name, is the explorer-chosen iteration order of IterateCollection (keys of
+	// stored entities); nil = the collection is empty (the behaviour before this extension)
+	order map[string][]string
+}
+
+// SetCollectionOrder makes IterateCollection over entities named entityName visit the stored
+// entities with these keys in this order (keys that are not stored any more are skipped).
+func (s *MemStore) SetCollectionOrder(entityName string, keys []string) {
+	s.mu.Lock()
+	defer s.mu.Unlock()
+	if s.order == nil {
+		s.order = map[string][]string{}
+	}
+	if keys == nil {
+		delete(s.order, entityName)
+		return
+	}
+	s.order[entityName] = append([]string{}, keys...)
+}
+
+// DeleteAll removes every stored entity of the given entity name.
+func (s *MemStore) DeleteAll(entityName string) {
+	s.mu.Lock()
+	defer s.mu.Unlock()
+	for k := range s.m {
+		if len(k) > len(entityName) && k[:len(entityName)+1] == entityName+":" {
+			delete(s.m, k)
+		}
+	}
+}
+
+// Has reports whether an entity with this name and key is stored.
+func (s *MemStore) Has(entityName, key string) bool {
+	s.mu.Lock()
+	defer s.mu.Unlock()
+	_, ok := s.m[entityName+":"+key]
+	return ok
 }
 
 func NewMemStore() *MemStore { return &MemStore{m: map[string][]byte{}} }
@@ -84,6 +121,31 @@ func (s *MemStore) MultiDeleteFromCollection(context.Context, datastore.EntityMe
 func (s *MemStore) GetCollectionSize(context.Context, datastore.EntityMetadata, string) int64 {
 	return 0
 }
-func (s *MemStore) IterateCollection(context.Context, datastore.EntityMetadata, string, datastore.CollectionIteratorHandler) error {
+func (s *MemStore) IterateCollection(ctx context.Context, md datastore.EntityMetadata, _ string, handler datastore.CollectionIteratorHandler) error {
+	s.mu.Lock()
+	order := append([]string{}, s.order[md.GetName()]...)
+	s.mu.Unlock()
+	for _, k := range order {
+		select {
+		case <-ctx.Done():
+			return ctx.Err()
+		default:
+		}
+		e := md.Instance()
+		if err := s.Read(ctx, datastore.ToKey(k), e); err != nil {
+			continue // deleted meanwhile
+		}
+		ce, ok := e.(datastore.CollectionEntity)
+		if !ok {
+			continue
+		}
+		proceed, err := handler(ctx, ce)
+		if err != nil {
+			return err
+		}
+		if !proceed {
+			break
+		}
+	}
 	return nil
 }
